@@ -151,3 +151,58 @@ Proof.
   destruct (stage_inv P n w c l WS R L START tr l' H) as [D|[(A & NC)|[(_ & NS)|(_ & NS)]]]; [exact D | | lia | lia].
   pose proof (round_collects P n w tr WS l l' R H B). lia.
 Qed.
+
+(* ---- what stealing adds ---- *)
+(* a thief v takes a batch from the front of the victim's local queue into its hand (LStGrab, ntake); the batch but its
+   last element goes to v's own local queue - which was empty: v steals only then -, the last one is resumed at once.  So a
+   stolen coroutine is next in the thief's local queue (and the bound above applies to the thief) or about to be resumed *)
+Definition StS l v c := In c (hand (base l) v) /\ ((exists i, wpc l v = PSteal i) \/ wpc l v = PStPut).
+
+Lemma stolen_step P n l a l' v c : LReach P n l -> v < n -> lstep P l a = Some l' -> StS l v c ->
+  StS l' v c \/ In c (lq (base l') v) \/ (wpc l' v = PRes RRun /\ hand (base l') v = [c]).
+Proof.
+  unfold StS. intros R L H (I & PC). pose proof (lreach_nw _ _ _ R) as NW.
+  pose proof (n_hand _ (iP _ (inv_reach _ _ (lreach_base _ _ _ R))) v) as ND.
+  destruct (option_nat_dec (actor a) (Some v)) as [A|NA].
+  - destruct (lstep_inv _ _ _ _ H) as (G & s' & -> & S). rewrite base_ctl.
+    destruct a; cbn [actor] in A; try discriminate A; inversion A; subst w; clear A; cbn [guard proj] in G, S; gsplit G.
+    all: try (destruct PC as [[i PC]|PC]; rewrite PC in G1; discriminate G1).
+    + (* LPut at PStPut *) destruct PC as [[i PC]|PC]; [rewrite PC in G1; discriminate G1|].
+      apply step_put in S. destruct S as (_ & x & rest & HH & LQ & HR & _).
+      rewrite HH in HR, ND, I. rewrite rm_head_nodup in HR by exact ND.
+      destruct I as [->|I]; [right; left; rewrite LQ; apply in_or_app; right; now left|].
+      unfold ctl. rewrite PC, HR. destruct rest as [|y [|z rest']]; [destruct I| |].
+      * right; right. destruct I as [->|[]]. lsimp. rewrite upd_eq. auto.
+      * left. lsimp. rewrite PC. split; [exact I | now right].
+    + (* LStGrab *) destruct PC as [[i PC]|PC]; [|rewrite PC in G1; discriminate G1]. rewrite PC in S.
+      apply step_grab in S. destruct S as (_ & x & _ & HH & _). left. split; [rewrite HH; apply in_or_app; now left|].
+      left. exists i. unfold ctl, taken. rewrite PC. dmatch; lsimp; exact PC.
+    + (* LStEnd *) subst s'. destruct PC as [[i PC]|PC]; [|rewrite PC in G1; discriminate G1].
+      unfold ctl. rewrite PC. destruct (hand (base l) v) as [|x [|y rest]] eqn:EH; [destruct I| |].
+      * right; right. destruct I as [->|[]]. lsimp. rewrite upd_eq. auto.
+      * left. lsimp. rewrite upd_eq. split; [exact I | now right].
+    + (* LStOut *) subst s'. exfalso. destruct PC as [[i PC]|PC]; [|rewrite PC in G1; discriminate G1].
+      pose proof (t_hand _ _ (tinv_reach _ _ _ R) v L) as HO. rewrite PC in HO, G1. cbn [hand_ok] in HO.
+      apply Nat.leb_le in G1. rewrite NW in G1. destruct HO as [HO|HO]; [lia | rewrite HO in I; destruct I].
+  - assert (NB : forall b, a = LBase b -> thread_of b <> Some v).
+    { intros b -> T. destruct (lstep_inv _ _ _ _ H) as (G & _). cbn [guard] in G.
+      destruct (base_ok_thread _ _ _ _ G T ltac:(rewrite NW; exact L)) as (C & _).
+      destruct PC as [[i PC]|PC]; rewrite PC in C; discriminate C. }
+    destruct (lstep_thread_frame _ _ _ _ v H NA NB) as (_ & _ & F). left. rewrite F. split; [exact I|].
+    destruct (lstep_inv _ _ _ _ H) as (_ & s' & -> & _). rewrite wpc_ctl_other by exact NA. exact PC.
+Qed.
+
+(* the thief's hand after the steal that took c *)
+Lemma steal_takes_into_hand P n l v l' : LReach P n l -> lstep P l (LStGrab v) = Some l' ->
+  exists i c, wpc l v = PSteal i /\ lq (base l) (victim n v i) = c :: lq (base l') (victim n v i) /\
+              ntake l' c = S (ntake l c) /\ StS l' v c.
+Proof.
+  intros R H. pose proof (lreach_nw _ _ _ R) as NW.
+  destruct (lstep_inv _ _ _ _ H) as (G & s' & -> & S). rewrite base_ctl. cbn [guard proj] in G, S. gsplit G.
+  destruct (wpc l v) eqn:PC; try discriminate G1. rewrite NW in S.
+  apply step_grab in S. destruct S as (_ & c & A & HH & _). cbn [getq] in A. exists i, c. split; [reflexivity|].
+  split; [exact A|]. split.
+  - unfold ctl. rewrite PC, NW, A. unfold taken, inc, hd_error. lsimp. now rewrite upd_eq.
+  - split; [rewrite base_ctl, HH; apply in_or_app; right; now left|]. left. exists i.
+    unfold ctl, taken. rewrite PC. dmatch; lsimp; exact PC.
+Qed.
